@@ -808,7 +808,7 @@ func runLsm(c *corr.Ctx) error {
 	c.Meta("rule", "random programs of writes (6 user keys incl. byte-prefix pairs, 2 column families, deletes, empty values), memtable rotation, gated flushes, every compaction kind (L0->ingest move to a chosen base level, L0->L0, ingest drain, ingest keep, regular), close+reopen, on a real DB with background compaction paused; after every maintenance step every touched key is read at every written version, version-1 and the maximum. non-trivial = at least one maintenance step executed; distinct by Gallina term")
 	n := c.Scale(8, 800)
 	if c.Prop == "C12" {
-		n = c.Scale(5, 400)
+		n = c.Scale(5, 300)
 	}
 	if only := os.Getenv("VERIF_SCRIPT"); only != "" {
 		runScriptLsm(c, only, strings.HasSuffix(only, "_plain"))
